@@ -23,9 +23,9 @@ theorem waiting_counter (v : Variant) (cfg : Config) (target : Nat) (known : Lis
     (evs : List Ev) :
     (runQ (withConfig v cfg target known) evs).numWaiting =
       (runQ (withConfig v cfg target known) evs).peers.countP (fun e => e.state.isWaiting) := by
-  have h := linv_run (linv_init v cfg target known) evs
-  rw [← runL_q (Led.init v cfg target known) evs]
-  exact h.wc
+  have h := (linv_reach v cfg target known evs).wc
+  rw [runL_init_q] at h
+  exact h
 
 /-- The `debug_assert!(self.num_waiting > 0)` before every `num_waiting -= 1` holds: whenever some
 peer is `Waiting`, the counter is positive (so the subtraction never wraps). -/
@@ -54,12 +54,9 @@ theorem parallelism_bound (v : Variant) (cfg : Config) (target : Nat) (known : L
     (runQ (withConfig v cfg target known) evs).peers.countP (fun e => e.state.isWaiting)
       ≤ max cfg.parallelism cfg.numResults := by
   rw [← waiting_counter]
-  have h := linv_run (linv_init v cfg target known) evs
-  have hc := (runL_const (Led.init v cfg target known) evs).1
-  rw [← runL_q (Led.init v cfg target known) evs]
-  have := h.bnd
-  rw [hc] at this
-  exact this
+  have h := (linv_reach v cfg target known evs).bnd
+  rw [runL_init_q, (runQ_init_const v cfg target known evs).1] at h
+  exact h
 
 /-- While the query has never left the iterating phase the bound is `parallelism` itself at the
 moment of issuing: after a request is handed out in the iterating phase at most `parallelism`
@@ -70,10 +67,9 @@ theorem parallelism_iterating (v : Variant) (cfg : Config) (target : Nat) (known
     (h : (next (runQ (withConfig v cfg target known) evs) now).2 = .waiting (some k)) :
     (runQ (withConfig v cfg target known) evs).numWaiting < cfg.parallelism := by
   have hm := parallelism_issue _ now k h
-  have hc := (runL_const (Led.init v cfg target known) evs).1
-  rw [runL_q] at hc
+  have hc := (runQ_init_const v cfg target known evs).1
   rcases hm with ⟨n', _, hlt⟩ | ⟨hs, _⟩
-  · rw [← show (runQ (withConfig v cfg target known) evs).cfg = cfg from hc]; exact hlt
+  · rw [hc] at hlt; exact hlt
   · rw [hit] at hs; cases hs
 
 /-! ### no peer is contacted twice -/
@@ -81,10 +77,9 @@ theorem parallelism_iterating (v : Variant) (cfg : Config) (target : Nat) (known
 /-- `no_recontact`: the list of peers handed out by `next` along any history has no duplicates. -/
 theorem no_recontact (v : Variant) (cfg : Config) (target : Nat) (known : List (Nat × Bool))
     (evs : List Ev) : (requests (withConfig v cfg target known) evs).Nodup := by
-  have h := (linv_run (linv_init v cfg target known) evs).nd
-  rw [runL_emitted] at h
-  have : ((requests (withConfig v cfg target known) evs).reverse ++ []).Nodup := h
-  simpa using this
+  have h := (linv_reach v cfg target known evs).nd
+  rw [runL_init_emitted] at h
+  exact nodup_of_reverse h
 
 /-- A request is only ever sent to a peer that is `NotContacted`, and afterwards that peer is
 never `NotContacted` again (its rank NotContacted > Waiting > Unresponsive > Failed/Succeeded can
@@ -92,11 +87,9 @@ only go down): every peer that was handed out has left the `NotContacted` state 
 theorem contacted_forever (v : Variant) (cfg : Config) (target : Nat) (known : List (Nat × Bool))
     (evs : List Ev) (k : Nat) (hk : k ∈ requests (withConfig v cfg target known) evs) :
     ∃ e ∈ (runQ (withConfig v cfg target known) evs).peers, e.key = k ∧ e.state ≠ .notContacted := by
-  have h := linv_run (linv_init v cfg target known) evs
-  rw [← runL_q (Led.init v cfg target known) evs]
-  apply h.em
-  rw [runL_emitted]
-  simp [hk]
+  have h := (linv_reach v cfg target known evs).em k (by rw [runL_init_emitted]; simpa using hk)
+  rw [runL_init_q] at h
+  exact h
 
 /-! ### termination -/
 
@@ -107,10 +100,10 @@ theorem requests_bounded (v : Variant) (cfg : Config) (target : Nat) (known : Li
     (evs : List Ev) (U : List Nat)
     (hU : ∀ x ∈ (runL (Led.init v cfg target known) evs).reported, x.1 ∈ U) :
     (requests (withConfig v cfg target known) evs).length ≤ U.length := by
-  have h := linv_run (linv_init v cfg target known) evs
+  have h := linv_reach v cfg target known evs
   apply nodup_subset_length_le _ _ (no_recontact v cfg target known evs)
   intro k hk
-  obtain ⟨e, he, hek, _⟩ := h.em k (by rw [runL_emitted]; simp [hk])
+  obtain ⟨e, he, hek, _⟩ := h.em k (by rw [runL_init_emitted]; simpa using hk)
   have := hU _ (h.rep e he)
   rw [← hek]; exact this
 
@@ -162,10 +155,10 @@ theorem result_once (timeout : Nat) (evs : List PEv) (hw : NoWrap (Pool.new time
     unfold returned
     rw [outsP_cons, List.filterMap_append]
     cases ho : (stepP p ev).2 with
-    | none => simpa using ih _ hp' hw'
+    | none => simpa [returned] using ih _ hp' hw'
     | some o =>
       cases hr : retId o with
-      | none => simpa [hr] using ih _ hp' hw'
+      | none => simpa [hr, returned] using ih _ hp' hw'
       | some r =>
         have hrr := (hout o ho).2 r hr
         have : (List.filterMap retId (some o).toList) = [r] := by simp [hr]
